@@ -195,6 +195,12 @@ def param_equal(expected, got):
     """Compare an expected parameter (str or Computed) with the one found in
     the molecule (str, float, numpy scalar)."""
     if isinstance(expected, Computed):
+        if expected.cond <= 1e-9:
+            # coincident / collinear points: the quantity is not defined
+            # (NaN or any number is acceptable), only the kind of value is checked
+            if expected.fmt is None:
+                return not isinstance(got, (str, bytes, bool))
+            return isinstance(got, str)
         periodic = expected.kind in ('dihedral', 'dihphase')
         loose = expected.cond < 1e-3
         if expected.fmt is None:
@@ -503,13 +509,13 @@ def _content_key(params, meta):
     return (tuple(out), repr(sorted(meta.items(), key=lambda kv: kv[0])))
 
 
-def apply_link(model, link, index):
+def apply_link(model, link, index, budget=1):
     """Apply one link at all its placements.  Returns a report dict."""
     report = {'placements': [], 'single': {}, 'molmeta': True, 'justified': set(),
               'removed_hits': 0, 'overrides': 0, 'self_replaced': 0, 'deleted': [],
               'replace_applied': 0, 'replace_conflict': False, 'would_place': 0}
     molmeta_ok = attrs_match(model.meta, [tuple(x) for x in link['molmeta']])
-    placements, single = enumerate_placements(model, link)
+    placements, single = enumerate_placements(model, link, budget)
     report['single'] = single
     if not molmeta_ok:
         report['molmeta'] = False
